@@ -652,7 +652,10 @@ where
                         if let Some(hash) = hash_fn((&mut fg[0].file_info, old_hash)) {
                             #[cfg(fclones_verif)]
                             crate::verif::hash_done(&fg[0].file_info.path.to_escaped_string());
+                            // the hash function may have updated the length (transform)
+                            let len = fg[0].file_info.len;
                             for mut f in fg {
+                                f.file_info.len = len;
                                 f.file_hash = hash.clone();
                                 #[cfg(fclones_verif)]
                                 crate::verif::jitter("rehash.send");
